@@ -39,7 +39,21 @@ class C11(object):
         n_cases = 320 if tier == 'quick' else 7000
         for _ in range(n_cases):
             kind = rng.choice(KINDS)
-            yield getattr(self, 'gen_' + kind)(rng)
+            yield self.desubnull(getattr(self, 'gen_' + kind)(rng))
+
+    @classmethod
+    def desubnull(cls, c):
+        """Sparse, trimmed sources drop probabilities within the null tolerance at construction (by design, C01); the
+        exact references below are about the table that was specified, so such entries are not generated here."""
+        if isinstance(c, dict):
+            if 'pmf' in c and 'outs' in c and all(isinstance(p, str) for p in c['pmf']):
+                gen.avoid_subnull(c)
+            for v in c.values():
+                cls.desubnull(v)
+        elif isinstance(c, list):
+            for v in c:
+                cls.desubnull(v)
+        return c
 
     def scalar_case(self, rng, base=None):
         k = rng.randint(1, 4)
